@@ -449,6 +449,7 @@ CHECKS["C18"] = {
         {"pkg": "./core", "harness": "VerifC18Clone", "params": {"which": [0, 1, 2, 3, 4, 5, 6], "real_clone": 1}},
         {"pkg": "./core/parsigdb", "harness": "VerifC18ParSigDB", "params": {}},
         {"pkg": "./core/aggsigdb", "harness": "VerifC18AggSigDB", "params": {}},
+        {"pkg": "./core/aggsigdb", "harness": "VerifC18AggSigDBV1", "params": {}},
         {"pkg": "./core/sigagg", "harness": "VerifC18SigAgg", "params": {}},
     ],
     "thorough": [
@@ -460,6 +461,7 @@ CHECKS["C18"] = {
         {"pkg": "./core", "harness": "VerifC18Clone", "params": {"which": [0, 1, 2, 3, 4, 5, 6], "real_clone": 1}, "cross": True},
         {"pkg": "./core/parsigdb", "harness": "VerifC18ParSigDB", "params": {}, "cross": True},
         {"pkg": "./core/aggsigdb", "harness": "VerifC18AggSigDB", "params": {}, "cross": True},
+        {"pkg": "./core/aggsigdb", "harness": "VerifC18AggSigDBV1", "params": {}, "cross": True},
         {"pkg": "./core/sigagg", "harness": "VerifC18SigAgg", "params": {}, "cross": True},
     ],
     "bounds": {
